@@ -37,4 +37,17 @@ Sum(S, args) == IF \E k \in 1..Len(args) : args[k].neg THEN Nothing
                 ELSE LET t == Total(args, Len(args)) IN IF Leq(t, MaxOf(S)) THEN Some(t) ELSE Nothing
 \* SetToNaturalSumOrMax(var, args...): the value stored (and returned)
 SumOrMax(S, args) == LET r == Sum(S, args) IN IF r.h THEN r.m ELSE MaxOf(S)
+
+\* ---- the same functions on TLC's own integers, for arguments of the 8- and 16-bit types (|x| <= 65535, at most 3 arguments).
+\* MC_SafeMath shows that they coincide with the wide definitions above.  -1 stands for "nothing".
+SmallMax(S) == CASE S = "i8" -> 127 [] S = "u8" -> 255 [] S = "i16" -> 32767 [] S = "u16" -> 65535
+                 [] OTHER -> 2147483647       \* 32- and 64-bit result types: no sum of three small arguments reaches their limit
+SmallIn(T, x) == CASE T = "i8" -> x >= 0 - 128 /\ x <= 127 [] T = "u8" -> x >= 0 /\ x <= 255
+                   [] T = "i16" -> x >= 0 - 32768 /\ x <= 32767 [] T = "u16" -> x >= 0 /\ x <= 65535
+                   [] OTHER -> T \in Types /\ (Signed(T) \/ x >= 0) /\ x >= 0 - 65535 /\ x <= 65535
+RECURSIVE SmallTotal(_, _)
+SmallTotal(args, k) == IF k = 0 THEN 0 ELSE SmallTotal(args, k - 1) + args[k]
+SmallSum(S, args) == IF \E k \in 1..Len(args) : args[k] < 0 THEN 0 - 1
+                     ELSE LET t == SmallTotal(args, Len(args)) IN IF t <= SmallMax(S) THEN t ELSE 0 - 1
+SmallSumOrMax(S, args) == LET r == SmallSum(S, args) IN IF r >= 0 THEN r ELSE SmallMax(S)
 ====
